@@ -5,6 +5,7 @@ package main
 import (
 	"fmt"
 	"io"
+	"sort"
 	"strings"
 	"time"
 
@@ -15,6 +16,7 @@ import (
 	vrt "github.com/AliceO2Group/Control/verif_vrt"
 	"github.com/segmentio/kafka-go"
 	"github.com/sirupsen/logrus"
+	"github.com/spf13/viper"
 	"google.golang.org/protobuf/proto"
 )
 
@@ -384,6 +386,122 @@ func topics(name string, topicNames []topic.Topic, events int, q, t vrt.Bounds) 
 		Doc:        fmt.Sprintf("%d topics of the core's writer table (the.EventWriterWithTopic) x %d events, shutdown = the.ClearEventWriters()", len(topicNames), events)}
 }
 
+// topicsFirstUse: nothing is installed beforehand; the writers are created by the core's own table on the
+// first use of a topic (enableKafka), by several producers at once - per topic `prodPerTopic` of them.
+func topicsFirstUse(name string, topicNames []topic.Topic, prodPerTopic, events int, q, t vrt.Bounds) *vrt.Scenario {
+	var published map[string][]string // per producer
+	var topicOf map[string]topic.Topic
+	var delivered map[topic.Topic][]string
+	var ackedAtClear, nPub, created int
+	var cleared, sameWriter bool
+	body := func() {
+		published, delivered, topicOf = map[string][]string{}, map[topic.Topic][]string{}, map[string]topic.Topic{}
+		cleared, sameWriter, ackedAtClear, nPub, created = false, true, 0, 0, 0
+		acked := 0
+		the.ResetEventWritersForVerif()
+		viper.Set("enableKafka", true)
+		vrt.AtExit(func() { viper.Set("enableKafka", false); event.WriterFactoryForVerif = nil })
+		event.WriterFactoryForVerif = func(tn topic.Topic) *event.KafkaWriter {
+			created++
+			return event.NewKafkaWriterForVerif(func(ms []kafka.Message) {
+				vrt.Yield("broker-latency")
+				for _, m := range ms {
+					id, _ := decode(m)
+					delivered[tn] = append(delivered[tn], id)
+				}
+				acked += len(ms)
+				vrt.Logf("batch on %s: %d", tn, len(ms))
+			})
+		}
+		var wg vrt.WaitGroup
+		wg.Add(len(topicNames) * prodPerTopic)
+		for i, tn := range topicNames {
+			for p := 0; p < prodPerTopic; p++ {
+				i, tn, p := i, tn, p
+				me := fmt.Sprintf("t%dp%d", i, p)
+				topicOf[me] = tn
+				vrt.GoFG("producer-"+me, func() {
+					var first event.Writer
+					for j := 0; j < events; j++ {
+						w := the.EventWriterWithTopic(tn)
+						if tn == topic.Root {
+							w = the.EventWriter()
+						}
+						if first == nil {
+							first = w
+						} else if w != first {
+							sameWriter = false
+						}
+						msg := fmt.Sprintf("%s-e%d", me, j)
+						w.WriteEvent(&pb.Ev_EnvironmentEvent{EnvironmentId: "envA", Message: msg})
+						published[me] = append(published[me], msg+"@envA")
+					}
+					wg.Done()
+				})
+			}
+		}
+		wg.Wait()
+		the.ClearEventWriters()
+		cleared = true
+		ackedAtClear = acked
+		for _, ids := range published {
+			nPub += len(ids)
+		}
+		vrt.Logf("cleared: writers created=%d", created)
+	}
+	check := func(x *vrt.Exec) (out []vrt.Violation) {
+		if !cleared {
+			return nil
+		}
+		if ackedAtClear < nPub {
+			out = append(out, vrt.Violation{Clause: "topic-writers-not-flushed-at-shutdown", Detail: fmt.Sprintf("%d events were accepted on %d topics before ClearEventWriters(); the broker held %d of them when it returned (%d writers were created); delivered at the end=%v", nPub, len(topicNames), ackedAtClear, created, delivered)})
+		}
+		if !sameWriter {
+			out = append(out, vrt.Violation{Clause: "topic-writer-not-stable", Detail: "two look-ups of the writer of one topic by one producer returned different writers (its order across them is nobody's)"})
+		}
+		count := map[string]int{}
+		for _, ids := range delivered {
+			for _, id := range ids {
+				count[id]++
+			}
+		}
+		var producers []string
+		for me := range published {
+			producers = append(producers, me)
+		}
+		sort.Strings(producers)
+		for _, me := range producers {
+			ids, got := published[me], []string{}
+			for _, id := range delivered[topicOf[me]] {
+				if strings.HasPrefix(id, me+"-") {
+					got = append(got, id)
+				}
+			}
+			for _, id := range ids {
+				if count[id] > 1 {
+					out = append(out, vrt.Violation{Clause: "duplicate-delivery", Detail: fmt.Sprintf("producer %s: %s delivered %d times", me, id, count[id])})
+					break
+				}
+			}
+			if len(got) < len(ids) {
+				out = append(out, vrt.Violation{Clause: "lost-at-shutdown", Detail: fmt.Sprintf("producer %s on %s: published %v, delivered %v", me, topicOf[me], ids, got)})
+				continue
+			}
+			for k := range ids {
+				if k < len(got) && got[k] != ids[k] {
+					out = append(out, vrt.Violation{Clause: "order", Detail: fmt.Sprintf("producer %s on %s: published %v, delivered %v", me, topicOf[me], ids, got)})
+					break
+				}
+			}
+		}
+		return out
+	}
+	return &vrt.Scenario{Name: name, Prop: "C19", Body: body, Check: check, Quick: q, Thorough: t, DeadlockClause: "close-hangs", PanicClause: "panic",
+		Setup: func() { logrus.SetOutput(io.Discard) },
+		NonTrivial: func(x *vrt.Exec) bool { return len(delivered) > 0 },
+		Doc:        fmt.Sprintf("%d topics x %d producers each x %d events, writers created by the core's table on first use (the.EventWriterWithTopic, enableKafka), shutdown = the.ClearEventWriters()", len(topicNames), prodPerTopic, events)}
+}
+
 // costly: every departure from the default schedule costs a deviation, also the choice of the next thread
 // when the running one blocks (otherwise bound 0 alone is every wake-up order of all the loops)
 func costly(sc *vrt.Scenario) *vrt.Scenario {
@@ -414,6 +532,7 @@ func main() {
 		// held broker and twice as many events as the input channel holds: the buffer between the loops must take them all
 		costly(scenario("hold-burst21000", params{producers: 1, events: 21000, hold: true}, vrt.Bounds{Dev: 0, Seconds: 120}, vrt.Bounds{Dev: 0, Seconds: 300})),
 		costly(topics("topics2", []topic.Topic{topic.Root, topic.Environment}, 2, vrt.Bounds{Dev: 1, Seconds: 60}, vrt.Bounds{Dev: 3, Seconds: 900})),
+		costly(topicsFirstUse("topics-first-use", []topic.Topic{topic.Root, topic.Environment}, 2, 2, vrt.Bounds{Dev: 1, Seconds: 60}, vrt.Bounds{Dev: 2, Seconds: 600})),
 		costly(topics("topics3x120", []topic.Topic{topic.Root, topic.Environment, topic.Task}, 120, vrt.Bounds{Dev: 0, Seconds: 60}, vrt.Bounds{Dev: 1, Seconds: 300})),
 	})
 }
